@@ -33,13 +33,20 @@ func init() {
 				"R7.4 simple path iff nothing required (= C06 R6.4)",
 				"R7.5 same value on every call: Entropy() writes no shared memory (EFF)",
 				"R7.6 helpers: union-of-members helper is NewSet() united with every member set; toBigInt is big.NewInt(int64(i))",
+				"R7.7 the sets counted over are the recipe's: the builder derives allowed/required/excluded from the public fields as C03 R3.x requires (borrowed)",
 			},
 			Trusted: append([]string{"math/big (Exp, Add, Sub, SetInt, MantExp) and math.Log2 are exact / correctly rounded as documented",
 				"golang-set: PowerSet enumerates every sub-family once; Union/Difference/Cardinality are correct; Iter yields every element once",
 				"the paper lemma (inclusion-exclusion)"}, commonTrusted...),
 			NotDecided: []string{"the float32/float64 rounding of the final value (\"to float32 precision\")", "numeric agreement for any particular recipe (not evaluated)"},
 		},
-		Run: runC07,
+		Run: func(p *core.Program, r *core.Report) {
+			runC07(p, r)
+			// "the strings that satisfy the recipe": the sets the count ranges over are the recipe's own
+			// Allow/Require/Exclude semantics only if the builder derives them as C03 says (= C03 R3.x re-run;
+			// not part of runC07 so that C06/C13, which re-run runC07, do not inherit it)
+			r.Borrow("R7.7", func() { checkAlphabetBuilder(p, r) })
+		},
 	})
 }
 
